@@ -456,7 +456,7 @@ def main(tier, seed):
     cov["rule"] = ("hierarchies from the grammar in configs(); per hierarchy every root word address x read/write x select masks "
                    "(single lanes, all lanes, two mixed masks; thorough: all masks for one hierarchy) as whole Wishbone transfers, BFS over "
                    "quiescent states to transaction depth 2 (thorough: 3 for one hierarchy)")
-    return finish(PID, tier, seed, "model_checking", cov, ASSUMPTIONS, t0, results)
+    return finish(PID, tier, seed, "model_checking", cov, ASSUMPTIONS, t0, results, min_explored=int(1.0 * len(results)))
 
 
 ASSUMPTIONS = [
